@@ -229,8 +229,12 @@ Ended(cer, store, nnew, d) ==
     THEN Res([cer EXCEPT !.done = TRUE, !.pc = "cancelled"], store, nnew, Ev("Cancel", [after |-> cer.ncount]))
     ELSE Finish(cer, store, nnew, d)
 
+\* the answer of the user-validation step.  kind "asked": a method that does what it is asked - presence always,
+\* verification exactly when the call requires it (so two prompts of one ceremony may answer differently)
+Ans(cer) == IF cer.env.uv.kind = "asked" THEN [kind |-> "ok", pres |-> TRUE, verif |-> cer.req.uv, err |-> 0] ELSE cer.env.uv
+
 PromptDenied(cer) ==
-    LET a == cer.env.uv IN
+    LET a == Ans(cer) IN
     IF a.kind # "ok" THEN a.err
     ELSE IF cer.req.up /\ ~a.pres THEN OperationDenied
     ELSE IF cer.req.uv /\ ~a.verif THEN OperationDenied
@@ -284,9 +288,9 @@ McStep(cfg, cer, store, nnew) ==
            IF ~cer.req.up THEN Finish(cer, store, nnew, EndErr(InvalidOption))
            ELSE IF cer.req.uv /\ cfg.uvCap # "configured" THEN Finish(cer, store, nnew, EndErr(UnsupportedOption))
            ELSE Gated(cfg, cer, store, nnew, "mc.prompted",
-                      [cer EXCEPT !.pres = cer.env.uv.kind = "ok" /\ cer.env.uv.pres,
-                                  !.verif = cer.env.uv.kind = "ok" /\ cer.env.uv.verif],
-                      store, PromptEv("none", cer.req.up, cer.req.uv, cer.env.uv))
+                      [cer EXCEPT !.pres = Ans(cer).kind = "ok" /\ Ans(cer).pres,
+                                  !.verif = Ans(cer).kind = "ok" /\ Ans(cer).verif],
+                      store, PromptEv("none", cer.req.up, cer.req.uv, Ans(cer)))
       [] cer.pc = "mc.prompted" ->
            IF PromptDenied(cer) # 0 THEN Ended(cer, store, nnew, EndErr(PromptDenied(cer)))
            ELSE IF cer.req.excludeGiven /\ cer.req.exclude # <<>>
@@ -344,9 +348,9 @@ GaStep(cfg, cer, store, nnew) ==
            ELSE IF cer.req.rk THEN Ended(cer, store, nnew, EndErr(UnsupportedOption))
            ELSE IF cer.req.uv /\ cfg.uvCap # "configured" THEN Ended(cer, store, nnew, EndErr(UnsupportedOption))
            ELSE Gated(cfg, cer, store, nnew, "ga.prompted",
-                      [cer EXCEPT !.pres = cer.env.uv.kind = "ok" /\ cer.env.uv.pres,
-                                  !.verif = cer.env.uv.kind = "ok" /\ cer.env.uv.verif],
-                      store, PromptEv(cer.found.id, cer.req.up, cer.req.uv, cer.env.uv))
+                      [cer EXCEPT !.pres = Ans(cer).kind = "ok" /\ Ans(cer).pres,
+                                  !.verif = Ans(cer).kind = "ok" /\ Ans(cer).verif],
+                      store, PromptEv(cer.found.id, cer.req.up, cer.req.uv, Ans(cer)))
       [] cer.pc = "ga.prompted" ->
            IF PromptDenied(cer) # 0 THEN Ended(cer, store, nnew, EndErr(PromptDenied(cer)))
            ELSE IF cer.pend # 0 THEN Ended(cer, store, nnew, EndErr(cer.pend))
